@@ -194,6 +194,12 @@ def run(ctx):
                 dom = dom.args[0]
             doms[col] = (txt(dom), d[4])
         if doms:
+            # a column built by walking the edge column that was filled a few lines earlier (`for e in model.edge_list`) walks
+            # the same edges in the same order, provided that column is the plain list of G.edges()
+            el_t = doms["edge_list"][0]
+            for col in ("topologies", "motif_id"):
+                if doms[col][0].endswith(".edge_list") and el_t in (f"{r.G}.edges()", f"{r.G}.edges"):
+                    doms[col] = (el_t, doms[col][1])
             texts = {t for t, _ in doms.values()}
             ok_texts = {f"{r.G}.edges()", f"{r.G}.edges"}
             if len(texts) == 1 and texts <= ok_texts:
@@ -236,7 +242,14 @@ def run(ctx):
     with ctx.obligation("C04.6", "reader visits vertices 0..order-1") as o:
         rf = r.fn
         d = r.describe("joint_degrees")
-        if d is None:
+        sites_ = r.cols.get("joint_degrees", [])
+        v_ = r.sc.resolve(sites_[0].value) if len(sites_) == 1 else None
+        while isinstance(v_, ast.Call) and txt(v_.func) in ("list", "tuple") and len(v_.args) == 1:
+            v_ = v_.args[0]
+        if isinstance(v_, (ast.ListComp, ast.GeneratorExp)) and len(v_.generators) == 1 and v_.generators[0].ifs:
+            o.violated(rf, sites_[0], f"only the vertices that pass `{txt(v_.generators[0].ifs[0])[:80]}` contribute their joint degree: the returned sequence is shorter than the vertex "
+                                      "set and every later entry is attributed to the wrong vertex", shape_free=True)
+        elif d is None:
             o.undecided("model.joint_degrees not recognised", rf)
         else:
             dom = d[2]
